@@ -324,6 +324,8 @@ Proof.
     + unfold head_lb; cbn. auto.
     + unfold pc_fact; cbn. auto.
     + intros x Hx. eapply (qs_swap s); eauto.
+  - (* VWritten: unreachable without view events *)
+    pcf I P. contradiction.
 Qed.
 
 Lemma step_EGcPub s s' : Inv s -> step s EGcPub = Some s' -> Inv s'.
@@ -585,9 +587,9 @@ Proof.
        | idtac ]).
 Qed.
 
-Theorem step_inv s s' e : Inv s -> step s e = Some s' -> Inv s'.
+Theorem step_inv s s' e : is_view e = false -> Inv s -> step s e = Some s' -> Inv s'.
 Proof.
-  destruct e.
+  intros NV. destruct e; try discriminate NV.
   - apply step_EHWritten.
   - apply step_ESwapped.
   - apply step_EBlockClosing.
@@ -641,14 +643,15 @@ Proof.
   unfold out_ok. apply result_spec; auto.
 Qed.
 
-Lemma run_inv tr : forall s s' outs, Inv s -> run s tr = Some (s', outs) ->
+Lemma run_inv tr : forall s s' outs, no_view tr = true -> Inv s -> run s tr = Some (s', outs) ->
   Inv s' /\ forall o, In o outs -> out_ok o.
 Proof.
-  induction tr as [|e tr IH]; intros s s' outs I H; cbn in H.
+  induction tr as [|e tr IH]; intros s s' outs NV I H; cbn in H.
   - inv H. split; auto. intros o [].
-  - destruct (step s e) as [s1|] eqn:S1; try discriminate.
+  - cbn in NV. apply andb_true_iff in NV. destruct NV as [NV1 NV2]. apply negb_true_iff in NV1.
+    destruct (step s e) as [s1|] eqn:S1; try discriminate.
     destruct (run s1 tr) as [[sf o1]|] eqn:R1; try discriminate. inv H.
-    destruct (IH s1 s' o1 (step_inv _ _ _ I S1) R1) as [A B]. split; [exact A|].
+    destruct (IH s1 s' o1 NV2 (step_inv _ _ _ NV1 I S1) R1) as [A B]. split; [exact A|].
     intros o Ho. apply in_app_or in Ho. destruct Ho as [Ho|Ho]; [|apply B; exact Ho].
     exact (output_ok s s1 e I S1 o Ho).
 Qed.
@@ -683,24 +686,24 @@ Proof.
 Qed.
 
 Theorem exactly_once : forall s0 tr s outs,
-  wf_init s0 = true -> run s0 tr = Some (s, outs) ->
+  wf_init s0 = true -> no_view tr = true -> run s0 tr = Some (s, outs) ->
   forall q mint maxt res, In (q, mint, maxt, res) outs ->
     NoDup res /\ (forall x, In x res <-> (In x (committed s0) /\ mint <= s_t x <= maxt)).
 Proof.
-  intros s0 tr s outs W R q mint maxt res Ho.
-  destruct (run_inv (committed s0) tr s0 s outs (inv_init s0 W) R) as [_ B].
+  intros s0 tr s outs W NV R q mint maxt res Ho.
+  destruct (run_inv (committed s0) tr s0 s outs NV (inv_init s0 W) R) as [_ B].
   exact (B _ Ho).
 Qed.
 
 (* if no two committed samples share (series, timestamp), no (series, timestamp) is returned twice *)
 Theorem exactly_once_keys : forall s0 tr s outs,
-  wf_init s0 = true -> run s0 tr = Some (s, outs) ->
+  wf_init s0 = true -> no_view tr = true -> run s0 tr = Some (s, outs) ->
   (forall a b, In a (committed s0) -> In b (committed s0) -> s_sid a = s_sid b -> s_t a = s_t b -> a = b) ->
   forall q mint maxt res, In (q, mint, maxt, res) outs ->
     NoDup (map (fun x => (s_sid x, s_t x)) res).
 Proof.
-  intros s0 tr s outs W R U q mint maxt res Ho.
-  destruct (exactly_once s0 tr s outs W R q mint maxt res Ho) as [ND SP].
+  intros s0 tr s outs W NV R U q mint maxt res Ho.
+  destruct (exactly_once s0 tr s outs W NV R q mint maxt res Ho) as [ND SP].
   assert (Sub : forall x, In x res -> In x (committed s0)) by (intros x Hx; apply SP in Hx; tauto).
   clear SP Ho. revert ND Sub. induction res as [|a r IHr]; intros ND Sub; cbn; constructor.
   - inv ND. intros Hin. apply in_map_iff in Hin. destruct Hin as (b & E & Hb). inv E.
